@@ -287,6 +287,11 @@ Definition holds_C10 (reg : list (name * (name * Z))) (p o : obs) (m : msg) : Z 
             end
         end
       else if same_state p o then 0 else 3
+  | Deploy _ _ _ _ _ | UpgradeErc20 _ _ =>
+      (* administrative messages move no value on either side *)
+      if o_code o =? 0 then
+        (if eqb (o_supply p) (o_supply o) && eqb (o_bal p) (o_bal o) && eqb (o_erc20 p) (o_erc20 o) then 0 else 8)
+      else if same_state p o then 0 else 3
   | _ => if (o_code o =? 0) || same_state p o then 0 else 3
   end.
 
